@@ -55,6 +55,17 @@ func Extra() []bgp.PathAttributeInterface {
 	if fs, err := bgp.NewFlowSpecVPN(bgp.RF_FS_IPv4_VPN, rd, comps); err == nil {
 		mp(bgp.RF_FS_IPv4_VPN, "", fs)
 	}
+	// IPv6 flow specifications: prefix components with a prefix offset (different from the prefix length, and zero)
+	d6, _ := bgp.NewIPAddrPrefix(netip.MustParsePrefix("2001:db8::/64"))
+	s6, _ := bgp.NewIPAddrPrefix(netip.MustParsePrefix("2001:db8:7::/48"))
+	comps6 := []bgp.FlowSpecComponentInterface{bgp.NewFlowSpecDestinationPrefix6(d6, 12), bgp.NewFlowSpecSourcePrefix6(s6, 0),
+		bgp.NewFlowSpecComponent(bgp.FLOW_SPEC_TYPE_DST_PORT, []*bgp.FlowSpecComponentItem{bgp.NewFlowSpecComponentItem(bgp.DEC_NUM_OP_EQ, 443)})}
+	if fs, err := bgp.NewFlowSpecUnicast(bgp.RF_FS_IPv6_UC, comps6); err == nil {
+		mp(bgp.RF_FS_IPv6_UC, "", fs)
+	}
+	if fs, err := bgp.NewFlowSpecVPN(bgp.RF_FS_IPv6_VPN, rd, comps6); err == nil {
+		mp(bgp.RF_FS_IPv6_VPN, "", fs)
+	}
 	// a FlowSpec NLRI of more than 240 octets (two-octet length form)
 	var many []*bgp.FlowSpecComponentItem
 	for i := 0; i < 80; i++ {
